@@ -16,7 +16,8 @@ from ..gen import triggers
 SUBJECT_EXCLUDED = {"lazy-ignores"}  # its subject is the suppression comments themselves
 CM = {"py": "#", "ts": "//", "js": "//", "rs": "//"}
 FORMS = ["same-line", "next-line", "block", "block2", "file@1", "file@5", "file@10", "file@11", "file@40", "thailintignore", "config-ignore", "linter-ignore"]
-SPELLINGS = ["full", "prefix", "wildcard", "upper", "mixed-list", "bare", "wildcard-upper", "wildcard-mixed-case", "prefix-mixed-case", "full-mixed-case"]
+SPELLINGS = ["full", "prefix", "wildcard", "upper", "mixed-list", "bare", "wildcard-upper", "wildcard-mixed-case", "prefix-mixed-case", "full-mixed-case",
+             "bare-trailing-ws", "full-trailing-ws"]  # (the last two: blanks / a tab after the directive, which an editor or a formatter may leave)
 NEG_SPELLINGS = ["other-rule", "other-prefix"]
 SECTION = {"pipeline": "collection-pipeline", "perf": "performance", "string-concat-loop": "performance", "regex-in-loop": "performance",
            "print-statements": "print-statements", "improper-logging": "improper-logging"}
@@ -62,8 +63,10 @@ def spell(rule_id: str, kind: str):
         return ["some-other.rule", rule_id]
     if kind == "alias":
         return [ALIASES[rule_id][0]]
-    if kind == "bare":
+    if kind in ("bare", "bare-trailing-ws"):
         return None
+    if kind == "full-trailing-ws":
+        return [rule_id]
     if kind == "other-rule":
         return ["totally-different.rule"]
     if kind == "other-prefix":
@@ -319,6 +322,9 @@ def run_flavour(ctx, rng, files, flavour, matrix):
             if res is None:
                 continue
             nf, shift, in_scope = res
+            if cell["spelling"].endswith("-trailing-ws"):
+                nf = dict(nf)
+                nf[f] = "\n".join((ln + "  \t" if re.search(r"(?:thailint|design-lint): ignore[^\n]*$", ln) else ln) for ln in nf[f].split("\n"))
 
             def expected(rows, names=names, in_scope=in_scope, shift=shift, f=f):
                 out = []
@@ -373,7 +379,7 @@ def run_flavour(ctx, rng, files, flavour, matrix):
         a, b = Counter(map(tuple, exp_w)), Counter(map(tuple, got_w))
         if a != b:
             ok = False
-            ctx.discrepancy("witness-changed:%s:%s:%s%s" % (w, cell["lang"], cell["form"], flavour) + (":bare" if cell["spelling"] == "bare" else ""),
+            ctx.discrepancy("witness-changed:%s:%s:%s%s" % (w, cell["lang"], cell["form"], flavour) + (":bare" if cell["spelling"].startswith("bare") else ""),
                             "directive for %s (%s, spelling=%s) on %s changed the unrelated `%s`: gone %r new %r" % (
                                 c, cell["form"], cell["spelling"], cell["file"], w, list((a - b).elements())[:2], list((b - a).elements())[:2]), rep, nf)
         matrix[(tag, "ok" if ok else "fail")] += 1
